@@ -196,8 +196,8 @@ def run_spec(spec, acc):
     acc.sample({"spec": spec, "out": gen_dag.all_outputs(spec)[-1], "mode": "dag"})
 
 
-STAGES = {"quick": ["N1", "N2", "N2-three-output-producer", "N2-decorated", "N3"],
-          "thorough": ["N1", "N2", "N2-three-output-producer", "N2-decorated", "N3", "N4-single-output"]}
+STAGES = {"quick": ["N1", "N2", "N2-three-output-producer", "N2-decorated", "N3-shared-none", "N3"],
+          "thorough": ["N1", "N2", "N2-three-output-producer", "N2-decorated", "N3-shared-none", "N3", "N4-single-output"]}
 
 
 def plan(tier, seed):
